@@ -26,6 +26,17 @@ BODY = ['VX', 'VY', 'VZ']
 SD = {"pos": 2.0, "ned": 3.0, "body": 0.5}           # exact squares in binary floating point
 
 
+class Observed(Exception):
+    """Something the code under test did that the harness met in the middle of a computation (reported as a violation)."""
+
+
+def _z(meas, t, pva, em):
+    ret = meas.compute_matrices(t, pva, em)
+    if ret is None:
+        raise Observed("nothing returned at a time present in the data when the same object was queried again (t = %r)" % (t,))
+    return np.asarray(ret[0], float)
+
+
 def domain_module(tier, seed):
     rng = np.random.RandomState(seed)
     vels = [(0, 0, 0), (3, -2, 1), (0, 5, 0), (-4, 1, -2)]
@@ -100,6 +111,8 @@ def replay_configs(m, chunk):
         probs = []
         try:
             probs = _one(m, cfg)
+        except Observed as e:
+            probs = [str(e)]
         except Exception as e:
             if not exc.entered_pyins(e):
                 raise                        # a defect of the harness: machinery error, never a violation
@@ -152,7 +165,7 @@ def _one(m, cfg):
         probs.append("compute_matrices modified the pva it was given")
     # (b) injected measurement error e  ->  z = ztrue - e
     meas2 = _measurement(m, cfg, table(meas_e))
-    z2 = np.asarray(meas2.compute_matrices(tq, pva, em)[0], float)
+    z2 = _z(meas2, tq, pva, em)
     tol = 1e-4 if kind == "pos" else 1e-12          # metres conversion: second-order terms of a 3 m displacement are ~1e-6 m
     if not np.allclose(z2, zt - e[:rows], rtol=0, atol=tol):
         probs.append("measurement error e = %r gives residual %r, expected ztrue - e = %r" % (e.tolist(), z2.tolist(), (zt - e[:rows]).tolist()))
@@ -171,7 +184,7 @@ def _one(m, cfg):
             if rate_part is not None:
                 p = pd.concat([p, rate_part])
             p.name = tq
-            zz.append(np.asarray(meas.compute_matrices(tq, p, em)[0], float))
+            zz.append(_z(meas, tq, p, em))
         Hfd[:, j] = -(zz[0] - zz[1]) / (2 * h[j])
     if np.abs(Hfd - np.round(Hfd)).max() > 1e-4:
         probs.append("derivative of z along correct_pva is not integral on the exact domain (max fraction %.3g)" % np.abs(Hfd - np.round(Hfd)).max())
@@ -205,13 +218,13 @@ def _one(m, cfg):
         gen = dict(pos=sim.generate_position_measurements, ned=sim.generate_ned_velocity_measurements,
                    body=sim.generate_body_velocity_measurements)[kind]
         d0 = gen(traj, 0.0, rng=1)
-        z0 = np.asarray(_measurement(m, cfg, d0).compute_matrices(tq, pva, em)[0], float)
+        z0 = _z(_measurement(m, cfg, d0), tq, pva, em)
         if not np.allclose(z0, zt, rtol=0, atol=1e-9):
             probs.append("noise-free simulated measurement at the true state gives residual %r, expected %r" % (z0.tolist(), zt.tolist()))
         sd = 4.0
         d1 = gen(traj, sd, rng=k)
         en = sd * np.random.RandomState(k).randn(3, 3)[1]
-        z1 = np.asarray(_measurement(m, cfg, d1).compute_matrices(tq, pva, em)[0], float)
+        z1 = _z(_measurement(m, cfg, d1), tq, pva, em)
         if not np.allclose(z1, zt - en[:rows], rtol=0, atol=1e-4 if kind == "pos" else 1e-9):
             probs.append("simulated measurement with injected error e gives residual %r, expected -e = %r" % (z1.tolist(), (zt - en[:rows]).tolist()))
     return probs
@@ -273,13 +286,15 @@ def general_predicates(m, seed, n):
                     if rate is not None:
                         p = pd.concat([p, pva[RATE]])
                     p.name = 10.0
-                    zz.append(np.asarray(meas.compute_matrices(10.0, p, em)[0], float))
+                    zz.append(_z(meas, 10.0, p, em))
                 Hfd[:, j] = -(zz[0] - zz[1]) / (2 * h[j])
             dev = float(np.abs(Hfd - H).max() / max(1.0, np.abs(H).max()))
             worst = max(worst, dev)
             if dev > 1e-5:
                 i = np.unravel_index(np.abs(Hfd - H).argmax(), H.shape)
                 probs.append("general: H is not the derivative of the residual: at (row %d, state %d) H = %.6g, dz/dx = %.6g (%s)" % (i[0], i[1], H[i], Hfd[i], tag))
+        except Observed as e:
+            probs.append("general: %s (%s)" % (e, tag))
         except Exception as e:
             if not exc.entered_pyins(e):
                 raise
